@@ -36,6 +36,10 @@ func (w *Words) UnmarshalJSON(b []byte) error {
 	return nil
 }
 
+// Clone returns a private copy (the code under test never gets case-owned memory,
+// so a failing case is always saved as it was generated).
+func (w Words) Clone() []uint64 { return append(make([]uint64, 0, len(w)), w...) }
+
 // U64 is a uint64 written as a hexadecimal string.
 type U64 uint64
 
